@@ -1,10 +1,12 @@
 (* C09 — diagnostics printed at compile time (they end up in the log of a broken
    obligation): which fields of the regenerated table violate the access discipline,
-   which summaries violate the deadlock checker.  Both lists are empty on a tree that
+   which summaries violate the deadlock checker, which functions may hand a recycled
+   object back twice or touch it afterwards.  All lists are empty on a tree that
    satisfies the property.  No proofs. *)
 From Coq Require Import List Bool String Arith.
 Import ListNotations.
 From Zap Require Import C09.Sem C09.Facts C09.Model Gen.AccessFacts.
+From Zap Require C09.Release Gen.ReleaseFacts.
 Open Scope string_scope.
 
 Fixpoint name_of (t : list (nat * string)) (x : nat) : string :=
@@ -23,3 +25,8 @@ Definition bad_summaries : list nat :=
 
 Eval vm_compute in ("C09: fields violating the access discipline", failing_fields).
 Eval vm_compute in ("C09: summaries (index in Gen.AccessFacts.units) violating the deadlock checker", bad_summaries).
+
+Definition failing_releases : list string :=
+  map fst (filter (fun u => negb (Release.release_ok (snd u))) ReleaseFacts.release_units).
+
+Eval vm_compute in ("C09: a recycled object may be handed back twice, or touched after it was handed back, in (file: function: variable)", failing_releases).
